@@ -487,6 +487,9 @@ func c02HandlerErrOnWire(c *core.Ctx) {
 				return
 			}
 			var ev ssa.Value
+			if ci := core.InfoOf(&call.Call); ci.Static == nil || sendsOnParam(ci.Static) < 0 {
+				return // only calls of a frame writer (a function that sends on its channel parameter)
+			}
 			for _, a := range call.Call.Args {
 				if core.NamedOf(a.Type()) == "frame" {
 					ev = frameFieldValue(a, "err")
